@@ -345,6 +345,24 @@ theorem C16_amount_persists (k : VKind) (s t : Store) (calls : List (List Period
 example : ∃ t, runDivide .num exStore [(exMonths, [27, 30]), ([exMonth 1, exMonth 2, exMonth 3], [9, 12])] = .ok t ∧
     sget t (exMonth 2) = some [5, 8] := ⟨_, ok_of_isOk (by decide +kernel), by decide +kernel⟩
 
+/-- hence after an accepted long input the sum over its pieces stays the amount whatever divide
+inputs follow (sub-periods, overlapping or enclosing periods), entity by entity -/
+theorem C16_sum_persists (s t t' : Store) (subs : List Period) (a : Vec) (hwf : WF a.length s)
+    (h : divideOn .num s subs a = .ok t) (calls : List (List Period × Vec))
+    (hc : runDivide .num t calls = .ok t') (i : Nat) : knownSum t' subs i = ent a i := by
+  rw [← C16_divide_conserves s t subs a hwf h i]
+  obtain ⟨c, _, hf, _, _⟩ := divideOn_ok_spec hwf h
+  apply knownSum_congr
+  intro q hq
+  cases hq' : sget t q with
+  | none => exact absurd hq' (filled_known hf q hq)
+  | some v => exact C16_amount_persists .num t t' calls hc q v hq'
+
+example : ∃ t, runDivide .num exStore [(exMonths, [27, 30]),
+      ([7, 8, 9, 10, 11, 12].map exMonth ++ [1, 2, 3, 4, 5, 6].map (fun k => (⟨.month, ⟨2019, k, 1⟩, 1⟩ : Period)), [48, 60])] = .ok t ∧
+    knownSum t exMonths 0 = 27 ∧ knownSum t exMonths 1 = 30 :=
+  ⟨_, ok_of_isOk (by decide +kernel), by decide +kernel, by decide +kernel⟩
+
 /-- **order, divide rule.** A long input followed by inputs on pieces inside it: if that order is
 accepted, the later inputs changed nothing, and giving the inner inputs *first* (shortest first)
 and the long one last is accepted as well and yields the same store. -/
@@ -397,6 +415,50 @@ example : ∃ t t', runDivide .num [] [([exMonth 2], [5, 8]), (exMonths, [27, 30
     runDivide .num [] [([exMonth 2], [5, 8]), ([exMonth 7], [2, 2]), (exMonths, [27, 30])] = .ok t' ∧
     exMonths.map (sget t') = exMonths.map (sget t) :=
   ⟨_, _, ok_of_isOk (by decide +kernel), ok_of_isOk (by decide +kernel), by decide +kernel⟩
+
+/-- **order, divide rule, general.** For a family of inputs whose piece lists are nested or disjoint
+(`Laminar`: every input with fewer pieces lies inside or apart from every input with more — quarters
+in years, months in quarters, …), ANY accepted order gives the same store as the shortest-first
+order (stable insertion sort by number of pieces), and that order is accepted too. -/
+theorem C16_order_shortest_first (n : Nat) (calls : List (List Period × Vec))
+    (hlen : ∀ d, d ∈ calls → d.2.length = n) (hlam : Laminar calls)
+    (s t : Store) (hwf : WF n s) (h : runDivide .num s calls = .ok t) :
+    ∃ t', runDivide .num s (shortestFirst calls) = .ok t' ∧ SameStore t' t :=
+  runDivide_shortestFirst calls hlen hlam s t hwf h
+
+example :
+    let calls : List (List Period × Vec) :=
+      [(exMonths, [27, 30]), ([exMonth 7], [2, 2]), ([exMonth 1, exMonth 2, exMonth 3], [9, 12])]
+    Laminar calls ∧ isOk (runDivide .num exStore calls) = true ∧
+    shortestFirst calls = [([exMonth 7], [2, 2]), ([exMonth 1, exMonth 2, exMonth 3], [9, 12]), (exMonths, [27, 30])] := by
+  decide +kernel
+
+/-- hence two accepted orders of the same nested-or-disjoint inputs that have the same shortest-first
+arrangement (always the case when inputs with equally many pieces keep their relative order) give
+the same store -/
+theorem C16_order_independent (n : Nat) (calls1 calls2 : List (List Period × Vec))
+    (hlen : ∀ d, d ∈ calls1 → d.2.length = n) (hlam : Laminar calls1)
+    (hsame : shortestFirst calls1 = shortestFirst calls2)
+    (s t1 t2 : Store) (hwf : WF n s) (h1 : runDivide .num s calls1 = .ok t1)
+    (h2 : runDivide .num s calls2 = .ok t2) : SameStore t1 t2 := by
+  have hmem : ∀ d, d ∈ calls2 ↔ d ∈ calls1 := by
+    intro d; rw [← mem_shortestFirst d calls2, ← hsame, mem_shortestFirst]
+  obtain ⟨u1, hu1, hs1⟩ := runDivide_shortestFirst calls1 hlen hlam s t1 hwf h1
+  obtain ⟨u2, hu2, hs2⟩ := runDivide_shortestFirst calls2 (fun d hd => hlen d ((hmem d).mp hd))
+    (fun c hc d hd => hlam c ((hmem c).mp hc) d ((hmem d).mp hd)) s t2 hwf h2
+  rw [hsame, hu2] at hu1
+  injection hu1 with e
+  subst e
+  exact sameStore_trans (sameStore_symm hs1) hs2
+
+example :
+    let c1 : List (List Period × Vec) :=
+      [(exMonths, [27, 30]), ([exMonth 7], [2, 2]), ([exMonth 1, exMonth 2, exMonth 3], [9, 12])]
+    let c2 : List (List Period × Vec) :=
+      [([exMonth 1, exMonth 2, exMonth 3], [9, 12]), (exMonths, [27, 30]), ([exMonth 7], [2, 2])]
+    shortestFirst c1 = shortestFirst c2 ∧ isOk (runDivide .num exStore c1) = true ∧
+      isOk (runDivide .num exStore c2) = true := by
+  decide +kernel
 
 /-- Unrestricted order independence ("any two accepted orders of the same inputs give the same
 store") is FALSE as soon as two long periods overlap without being nested — of the code as well:
